@@ -611,8 +611,15 @@ def _scenario_step(st: State, n, r):
                     'spell': 0, 'expect': 'reject',
                     'bad': 'wrong_dimension'}
     if form == 1:
+        # (the taken symbol: of any unit, or of a unit of this very type
+        # that was derived without a name; the rejected call brings a name)
+        own = [s for s in model.types[tn]['units']
+               if model.units[s]['kind'] == 'derived']
+        if own and r[8] % 2:
+            taken = own[r[9] % len(own)]
         return {'a': 'derive_unit', 'type': tn, 'units': [a, b],
-                'sym': taken, 'expect': 'reject', 'bad': 'dup_symbol'}
+                'sym': taken, 'name': 'named by a rejected call',
+                'expect': 'reject', 'bad': 'dup_symbol'}
     if form == 2:
         return {'a': 'term_unit', 'type': tn, 'sym': taken, 'items': items,
                 'k': None, 'nums': [], 'spell': 0, 'expect': 'reject',
@@ -912,6 +919,10 @@ def _observe(env: Env16, symbols, typenames, pairs=(), final=True):
         obs['convs:' + tn] = len(list(cls.registered_converters()))
     # attributes of the existing units (a rejected declaration must not
     # change what is already there)
+    try:
+        obs['names'] = [[u.symbol, u.name] for u in live]
+    except Exception as e:      # noqa
+        obs['names'] = 'exc:' + type(e).__name__
     for u in live[:10]:
         try:
             q = u.quantum
